@@ -1,5 +1,5 @@
-(* Extraction of the C18 model (Model/Pkg.v) and specification (Model/PkgSpec.v) to OCaml. *)
+(* Extraction of the C18 model (Model/Pkg.v, Model/PkgRoutes.v) and specification (Model/PkgSpec.v) to OCaml. *)
 From Coq Require Import ZArith ExtrOcamlBasic.
-Require Import ZV.Model.Pkg ZV.Model.PkgSpec.
+Require Import ZV.Model.Pkg ZV.Model.PkgSpec ZV.Model.PkgRoutes.
 Extraction "model.ml" Z.add Z.mul Z.opp Z.div_eucl Z.of_nat Z.to_nat Z.compare
-  heap0 build_world run_op spec_op hash_map scope_map.
+  heap0 build_world run_op spec_op hash_map scope_map route_run route_spec.
